@@ -1,7 +1,7 @@
 """C05 — kernel breakdown partitions busy time by type and conserves per-kernel time."""
 from itertools import combinations
 
-from harness.common import KCLASS, close, multisets, sand
+from harness.common import precalls, KCLASS, close, multisets, sand
 from oracles.intervals import exactly_len, union_len
 from symx import tracegen as TG
 from symx.engine import smax, smin
@@ -69,6 +69,13 @@ def kernel_skeletons(tier):
                              ("NnM", (1, 0.8, True)), ("CcN", (1, 0.5, False))]:
             out.append({"id": f"r1-{w}-k{k}-q{q}-m{int(m)}", "ranks": {"0": w},
                         "params": {"num_kernels": k, "duration_ratio": q, "mem": m}})
+        # "every trace": a device activity on stream 0 (legacy default stream) is a device activity
+        for w in ("C", "CN", "MC"):
+            out.append({"id": f"r1-{w}-stream0", "ranks": {"0": w},
+                        "params": {"num_kernels": 2, "duration_ratio": 1.0, "mem": True, "stream0": True}})
+        for pre in ("temporal", "overlap", "idle"):
+            out.append({"id": f"r1-CN-after-{pre}", "ranks": {"0": "CN"},
+                        "params": {"num_kernels": 2, "duration_ratio": 1.0, "mem": True, "pre": [pre]}})
         for (k, q, m) in CONFIGS_Q[1:2]:
             out.append({"id": f"r2-Cc-N-k{k}-q{q}", "ranks": {"0": "Cc", "1": "N"},
                         "params": {"num_kernels": k, "duration_ratio": q, "mem": m}})
@@ -83,6 +90,9 @@ def kernel_skeletons(tier):
             out.append({"id": f"r1-{w}-k1-qsym", "ranks": {"0": w},
                         "params": {"num_kernels": 1, "duration_ratio": "$ratio", "mem": True},
                         "vars": {"ratio": ["real", 0, 1]}})
+        for w in multisets("CNM", 2) + ["C", "N", "M"]:
+            out.append({"id": f"r1-{w}-stream0", "ranks": {"0": w},
+                        "params": {"num_kernels": 2, "duration_ratio": 1.0, "mem": True, "stream0": True}})
         for (k, q, m) in CONFIGS_Q:
             for a, b in [("Cc", "CN"), ("CM", "cN"), ("cc", "Cn")]:
                 out.append({"id": f"r2-{a}-{b}-k{k}-q{q}", "ranks": {"0": a, "1": b},
@@ -177,6 +187,7 @@ def run(ctx):
     nk, mem = P["num_kernels"], P["mem"]
     analysed = ORDER[:3] if mem else ORDER[:2]
     ta = ctx.open(events)
+    precalls(ctx, ta)
     type_df, kern_df = ta.get_gpu_kernel_breakdown(visualize=False, duration_ratio=ratio, num_kernels=nk,
                                                    include_memory_kernels=mem)
     # ---- type table ------------------------------------------------------------------
